@@ -168,7 +168,9 @@ func (it *Interp) step(fr *Frame, ins ssa.Instruction) {
 				it.mapUpdate(it.get(fr, ins.Map), it.get(fr, ins.Key), it.get(fr, ins.Value))
 			case *ssa.MakeChan:
 				n := it.concInt(it.get(fr, ins.Size), ins.Size.Type())
-				it.set(fr, ins, Value{Ref: &ChanObj{cap: int(n), epoch: it.epoch}})
+				ch := &ChanObj{cap: int(n), epoch: it.epoch}
+				it.chans = append(it.chans, ch)
+				it.set(fr, ins, Value{Ref: ch})
 			case *ssa.Send:
 				it.send(it.get(fr, ins.Chan), it.get(fr, ins.X))
 			case *ssa.MakeClosure:
@@ -245,9 +247,9 @@ func (it *Interp) cellOf(p Value) *Cell {
 
 func (it *Interp) load(p Value) Value {
 	if sp, ok := p.Ref.(*symPtr); ok {
-		return it.readSymbolic(len(sp.cells), func(i int) Value { return sp.cells[i].load() }, sp.idx, sp.elem)
+		return it.readSymbolic(len(sp.cells), func(i int) Value { return it.loadCell(sp.cells[i]) }, sp.idx, sp.elem)
 	}
-	return it.cellOf(p).load()
+	return it.loadCell(it.cellOf(p))
 }
 
 // symPtr is the address of an element selected by a symbolic, in-range index;
@@ -621,7 +623,7 @@ func (it *Interp) mapUpdate(mv, key, val Value) {
 }
 
 func (it *Interp) errorString(msg string) Value {
-	t := it.eng.modelType("RuntimeError")
+	t := it.eng.modelType("PlainRuntimeError")
 	return Value{Ref: &Iface{t: t, v: Value{Ref: &Agg{v: []Value{mkStr(msg)}}}}}
 }
 
@@ -634,34 +636,63 @@ func (it *Interp) optInt(fr *Frame, v ssa.Value, def int) int {
 	return int(it.concInt(it.get(fr, v), v.Type()))
 }
 
+// optBound is the value of an optional slice index that must lie in [0, max];
+// on the paths where it does not, the Go run-time panic is raised. A symbolic
+// index is first decided in or out of range and only then concretised.
+func (it *Interp) optBound(fr *Frame, v ssa.Value, def, max int, what string, args ...int) int {
+	if v == nil {
+		return def
+	}
+	x := it.get(fr, v)
+	t, ok := x.Ref.(*Term)
+	if !ok {
+		i := it.concInt(x, v.Type())
+		if i < 0 || i > int64(max) {
+			it.goPanicRuntime("slice bounds out of range " + fmt.Sprintf(what, append([]any{i}, anyInts(args)...)...))
+		}
+		return int(i)
+	}
+	w, signed := scalarSort(v.Type())
+	if w < 64 {
+		if signed {
+			t = it.tt.Sext(t, 64)
+		} else {
+			t = it.tt.Zext(t, 64)
+		}
+	}
+	if !it.pr.Decide(it.tt.Cmp(OUle, t, it.tt.Const(64, uint64(max)))) {
+		it.goPanicRuntime("slice bounds out of range [symbolic index] " + what)
+	}
+	return int(it.pr.Concretize(t))
+}
+
+func anyInts(xs []int) []any {
+	r := make([]any, len(xs))
+	for i, x := range xs {
+		r[i] = x
+	}
+	return r
+}
+
 func (it *Interp) sliceOp(fr *Frame, ins *ssa.Slice) Value {
 	x := it.get(fr, ins.X)
 	it.checkPoison(x)
 	switch xt := ins.X.Type().Underlying().(type) {
 	case *types.Basic: // string
 		s := x.Ref.(*Str)
-		lo := it.optInt(fr, ins.Low, 0)
-		hi := it.optInt(fr, ins.High, s.Len())
-		if hi < 0 || hi > s.Len() {
-			it.goPanicRuntime(fmt.Sprintf("slice bounds out of range [:%d] with length %d", hi, s.Len()))
-		}
-		if lo < 0 || lo > hi {
-			it.goPanicRuntime(fmt.Sprintf("slice bounds out of range [%d:%d]", lo, hi))
-		}
+		hi := it.optBound(fr, ins.High, s.Len(), s.Len(), "[:%d] with length %d", s.Len())
+		lo := it.optBound(fr, ins.Low, 0, hi, "[%d:%d]", hi)
 		return s.Slice(lo, hi)
 	case *types.Slice:
 		s, _ := x.Ref.(Slice)
-		lo := it.optInt(fr, ins.Low, 0)
-		hi := it.optInt(fr, ins.High, s.n)
-		mx := it.optInt(fr, ins.Max, len(s.c))
-		if mx < 0 || mx > len(s.c) {
-			it.goPanicRuntime(fmt.Sprintf("slice bounds out of range [::%d] with capacity %d", mx, len(s.c)))
-		}
-		if hi < 0 || hi > mx {
-			it.goPanicRuntime(fmt.Sprintf("slice bounds out of range [:%d] with capacity %d", hi, mx))
-		}
-		if lo < 0 || lo > hi {
-			it.goPanicRuntime(fmt.Sprintf("slice bounds out of range [%d:%d]", lo, hi))
+		mx := it.optBound(fr, ins.Max, len(s.c), len(s.c), "[::%d] with capacity %d", len(s.c))
+		var hi, lo int
+		if ins.Max != nil {
+			hi = it.optBound(fr, ins.High, mx, mx, "[:%d:%d]", mx)
+			lo = it.optBound(fr, ins.Low, 0, hi, "[%d:%d:]", hi)
+		} else {
+			hi = it.optBound(fr, ins.High, s.n, mx, "[:%d] with capacity %d", mx)
+			lo = it.optBound(fr, ins.Low, 0, hi, "[%d:%d]", hi)
 		}
 		if s.c == nil {
 			return x
@@ -671,17 +702,14 @@ func (it *Interp) sliceOp(fr *Frame, ins *ssa.Slice) Value {
 		_ = xt
 		c := it.cellOf(x)
 		n := len(c.sub)
-		lo := it.optInt(fr, ins.Low, 0)
-		hi := it.optInt(fr, ins.High, n)
-		mx := it.optInt(fr, ins.Max, n)
-		if mx < 0 || mx > n {
-			it.goPanicRuntime(fmt.Sprintf("slice bounds out of range [::%d] with length %d", mx, n))
-		}
-		if hi < 0 || hi > mx {
-			it.goPanicRuntime(fmt.Sprintf("slice bounds out of range [:%d] with capacity %d", hi, mx))
-		}
-		if lo < 0 || lo > hi {
-			it.goPanicRuntime(fmt.Sprintf("slice bounds out of range [%d:%d]", lo, hi))
+		mx := it.optBound(fr, ins.Max, n, n, "[::%d] with length %d", n)
+		var hi, lo int
+		if ins.Max != nil {
+			hi = it.optBound(fr, ins.High, mx, mx, "[:%d:%d]", mx)
+			lo = it.optBound(fr, ins.Low, 0, hi, "[%d:%d:]", hi)
+		} else {
+			hi = it.optBound(fr, ins.High, mx, mx, "[:%d] with length %d", mx)
+			lo = it.optBound(fr, ins.Low, 0, hi, "[%d:%d]", hi)
 		}
 		return Value{Ref: Slice{c: c.sub[lo:mx:mx], n: hi - lo}}
 	}
